@@ -102,7 +102,7 @@ def split_sum(rng, total, parts):
 def correspondence(ctx):
     ctx.rule = ("tokenize family: kind byte exhaustively 0..255 x index lengths 0..9 of both parities x passwords from {empty, ASCII, "
                 "multi-byte, invalid and truncated UTF-8, 300 characters}; lengths summing to exactly / one more than the character count; "
-                "zero lengths; random bytes; the pinned-code panic witness first. Non-trivial = distinct (password, index) with kind <= 3 "
+                "zero lengths; random bytes; lengths whose total passes 256 and 512 against shorter passwords; the empty index as nil and as empty-but-allocated; the entropy argument varying over zero, negative, infinite, NaN and denormal values; after every success three more decodings of other text, then the first result read again; the pinned-code panic witness first. Non-trivial = distinct (password, index) with kind <= 3 "
                 "and a non-empty body, or an invalid-UTF-8 password.")
     cases = gen_cases(ctx)
     for line, meta in cases:
